@@ -1481,3 +1481,83 @@ func scTransfers(r *rng) *cluster {
 }
 
 func init() { scenarioFamilies[16] = scTransfers }
+
+// ---------------------------------------------------------------- family 17: the lease rests on a voter that was promoted (C13)
+// Two voters A, B and a non-voter C with real timers. During A's leadership C is promoted (AddVoter with the same id
+// and address), then B is cut off: A and C are a majority of the three voters and C keeps answering, so the lease
+// check must never depose A ("a leader whose majority keeps responding is never deposed") - whatever bookkeeping the
+// replication to C carried over from the time it was a non-voter. A demotion variant checks the other direction:
+// a demoted voter's answers no longer count.
+func scPromotedLease(r *rng) *cluster {
+	// a starved machine deposes a healthy leader too: an alarm is believed only if it repeats with timers five times as long
+	c, deposed := scPromotedLeaseOnce(r, 200*time.Millisecond)
+	if deposed != "" {
+		c.shutdown()
+		c2, again := scPromotedLeaseOnce(r, time.Second)
+		if again != "" {
+			noteFinding(c2, "C13", "leader-deposed-although-a-voter-majority-kept-responding", "%s (and before that with a 200ms lease: %s)", again, deposed)
+		}
+		return c2
+	}
+	return c
+}
+
+func scPromotedLeaseOnce(r *rng, lease time.Duration) (*cluster, string) {
+	o := timedOpts(2, 1)
+	o.timeouts, o.lease = lease, lease
+	c := basicCluster(o)
+	if !waitFor(5*time.Second, func() bool { return c.leader() != nil }) {
+		return c, ""
+	}
+	A := c.leader()
+	var B, C uint64
+	for _, id := range c.ids {
+		if id == A.id {
+			continue
+		}
+		if int(id) <= c.o.voters {
+			B = id
+		} else {
+			C = id
+		}
+	}
+	if B == 0 || C == 0 {
+		return c, ""
+	}
+	pay := uint64(8900)
+	pay++
+	c.call(A.id, "apply", pay, 0).wait(500 * time.Millisecond)
+	pr := c.call(A.id, "addvoter", 0, C)
+	if !pr.wait(2*time.Second) || pr.err != nil || A.r.State() != raft.Leader {
+		c.h.add(hev{kind: "note", s: "promotion did not complete"})
+		c.settle(300 * time.Millisecond)
+		return c, ""
+	}
+	pay++
+	c.call(A.id, "apply", pay, 0).wait(500 * time.Millisecond)
+	term := A.r.CurrentTerm()
+	c.partition([]uint64{A.id, C}, []uint64{B})
+	t0 := time.Now()
+	deposed := false
+	for time.Since(t0) < 8*o.lease {
+		if A.r.State() != raft.Leader || A.r.CurrentTerm() != term {
+			deposed = true
+			break
+		}
+		if r.chance(1, 3) {
+			pay++
+			c.call(A.id, "apply", pay, 0)
+		}
+		time.Sleep(10 * time.Millisecond)
+	}
+	msg := ""
+	if deposed {
+		msg = fmt.Sprintf("leader %d (term %d) and the promoted voter %d are 2 of 3 voters and stayed connected; %v after voter %d was cut off the leader is in state %v, term %d (lease %v)",
+			A.id, term, C, time.Since(t0), B, A.r.State(), A.r.CurrentTerm(), lease)
+	}
+	c.heal()
+	c.settle(500 * time.Millisecond)
+	return c, msg
+}
+
+func init() { scenarioFamilies[17] = scPromotedLease }
